@@ -13,9 +13,9 @@
 package main
 
 import (
-	"time"
 	"fmt"
 	"strings"
+	"time"
 
 	capnp "capnproto.org/go/capnp/v3"
 	"capnproto.org/go/capnp/v3/internal/verif/rpcsim"
@@ -470,10 +470,11 @@ const (
 	aCallDirect = iota // call on the bootstrap client
 	aCallPipe          // call pipelined on the latest call's answer, pointer 0
 	aReleaseAns        // release the latest answer
+	aCancelLast        // cancel the latest call's context and wait for its answer
 	nAppOps
 )
 
-var appOpNames = []string{"boot.Call", "ans.Pipe[0]", "ans.Release"}
+var appOpNames = []string{"boot.Call", "ans.Pipe[0]", "ans.Release", "cancel(latest)"}
 
 func (c cprog) String() string {
 	var s []string
@@ -490,7 +491,7 @@ func cprogs(maxLen int) []cprog {
 		if len(cur) > 0 {
 			calls := 0
 			for _, o := range cur {
-				if o != aReleaseAns {
+				if o == aCallDirect || o == aCallPipe {
 					calls++
 				}
 			}
@@ -506,7 +507,7 @@ func cprogs(maxLen int) []cprog {
 						for _, o := range cur {
 							if o == aReleaseAns {
 								seenRel = true
-							} else if seenRel {
+							} else if seenRel && o != aCancelLast {
 								bad = true
 							}
 						}
@@ -525,7 +526,7 @@ func cprogs(maxLen int) []cprog {
 			if o != aCallDirect {
 				has := false
 				for _, x := range cur {
-					if x != aReleaseAns {
+					if x == aCallDirect || x == aCallPipe {
 						has = true
 					}
 				}
@@ -541,22 +542,25 @@ func cprogs(maxLen int) []cprog {
 }
 
 type coutcome struct {
+	cancelled map[int]bool
 	outcome
 	results []string // per app call: "id" or "exc:..."
 	nCalls  int
 }
 
 func runConnProg(cp cprog, out *coutcome) {
+	out.closeAt = -1
 	s := rpcsim.New(rpcsim.FaultPlan{}, false)
 	out.sim = s
 	p := s.NewPeer()
 	nCalls := 0
 	for _, o := range cp.ops {
-		if o != aReleaseAns {
+		if o == aCallDirect || o == aCallPipe {
 			nCalls++
 		}
 	}
 	out.nCalls = nCalls
+	out.cancelled = map[int]bool{}
 	out.results = make([]string, nCalls)
 	appDone := false
 	// responder peer
@@ -608,7 +612,12 @@ func runConnProg(cp cprog, out *coutcome) {
 	var rels []capnp.ReleaseFunc
 	released := map[int]bool{}
 	k := 0
+	var cancels []context.CancelFunc
+	var cctx context.Context
 	send := func(f func(capnp.Send) (*capnp.Answer, capnp.ReleaseFunc)) {
+		var cancel context.CancelFunc
+		cctx, cancel = context.WithCancel(ctx)
+		cancels = append(cancels, cancel)
 		id := uint32(500 + k)
 		ans, rel := f(capnp.Send{Method: capnp.Method{InterfaceID: rpcsim.IfaceID, MethodID: rpcsim.MethodEcho}, ArgsSize: capnp.ObjectSize{DataSize: 8},
 			PlaceArgs: func(a capnp.Struct) error { a.SetUint32(0, id); return nil }})
@@ -619,12 +628,20 @@ func runConnProg(cp cprog, out *coutcome) {
 	for _, o := range cp.ops {
 		switch o {
 		case aCallDirect:
-			send(func(sd capnp.Send) (*capnp.Answer, capnp.ReleaseFunc) { return bc.SendCall(ctx, sd) })
+			send(func(sd capnp.Send) (*capnp.Answer, capnp.ReleaseFunc) { return bc.SendCall(cctx, sd) })
 		case aCallPipe:
 			last := answers[len(answers)-1]
 			send(func(sd capnp.Send) (*capnp.Answer, capnp.ReleaseFunc) {
-				return last.PipelineSend(ctx, []capnp.PipelineOp{{Field: 0}}, sd)
+				return last.PipelineSend(cctx, []capnp.PipelineOp{{Field: 0}}, sd)
 			})
+		case aCancelLast:
+			i := len(answers) - 1
+			out.cancelled[i] = true
+			cancels[i]()
+			if out.results[i] == "" {
+				st, err := answers[i].Struct()
+				out.results[i] = classifyResult(st, err)
+			}
 		case aReleaseAns:
 			i := len(answers) - 1
 			if !released[i] {
@@ -647,8 +664,12 @@ func runConnProg(cp cprog, out *coutcome) {
 			rel()
 		}
 	}
+	for _, c := range cancels {
+		c()
+	}
 	bc.Release()
 	appDone = true
+	out.closeAt = len(s.T.Wire)
 	out.closeErr = s.Conn.Close()
 	out.mainDone = true
 }
@@ -680,9 +701,27 @@ func judgeConn(cp cprog, out *coutcome, vr *vsched.Result) (string, string) {
 		}
 	}
 	localNull := map[int]bool{}
+	cancelledUnsent := map[int]bool{}
+	for i, m := range out.sim.T.Wire {
+		if m.ToPeer && m.Msg.IsValid() && m.Msg.Which() == rpccp.Message_Which_abort && (out.closeAt < 0 || i < out.closeAt) {
+			e, _ := m.Msg.Abort()
+			rs, _ := e.Reason()
+			return "abort-on-valid-traffic", "the Conn aborted on well-formed traffic: " + rs + "\nwire: " + wire + "\nreported: " + strings.Join(out.sim.W.Reported, " | ")
+		}
+	}
 	for i, r := range out.results {
 		id := fmt.Sprint(500 + i)
 		wantExc := i == cp.except
+		if out.cancelled[i] && strings.Contains(r, "context canceled") {
+			localNull[i] = true // (it was sent, or not, before the cancellation took effect)
+			cancelledUnsent[i] = true
+			continue
+		}
+		if calls[i].base >= 0 && out.cancelled[calls[i].base] && strings.HasPrefix(r, "exc:") {
+			localNull[i] = true // pipelined on a cancelled call: fails with its error
+			cancelledUnsent[i] = true
+			continue
+		}
 		if calls[i].base >= 0 && strings.Contains(r, "null client") {
 			// The responder's results carry no capability, so a call
 			// pipelined on an answer that has already arrived is resolved
@@ -877,10 +916,10 @@ func connFamily(name string, cps []cprog, cfg vsched.Config) vlib.Family {
 
 func main() {
 	vlib.Main(vlib.Spec{
-		ID:    "C06",
-		Level: "model_checking",
+		ID:          "C06",
+		Level:       "model_checking",
 		CaseTimeout: 30 * time.Minute,
-		Rule:  "peer-calls: all well-formed peer scripts of length <= L over {Bootstrap, Call on import 0 (after the bootstrap Return), Call pipelined on any unfinished question with the matching transform, Finish(releaseResultCaps f|t)} x call behaviours, gates opened by a keeper thread, script epilogue collects every Return and finishes every question, then Close; conn-calls: application programs of <= L ops over {call on the bootstrap client, call pipelined on the latest answer, release answer} against a responder peer answering in issue or reverse order with one optional exception. For each scenario all schedules of the real rpc/server/capnp code inside the bounds; oracle = RPC call model of DESIGN appendix A.4/D on the wire log and application event log. states = distinct scheduling configurations summed over scenarios; transitions = scheduling steps; traces = executions on the implementation.",
+		Rule:        "peer-calls: all well-formed peer scripts of length <= L over {Bootstrap, Call on import 0 (after the bootstrap Return), Call pipelined on any unfinished question with the matching transform, Finish(releaseResultCaps f|t)} x call behaviours, gates opened by a keeper thread, script epilogue collects every Return and finishes every question, then Close; conn-calls: application programs of <= L ops over {call on the bootstrap client, call pipelined on the latest answer, release answer} against a responder peer answering in issue or reverse order with one optional exception. For each scenario all schedules of the real rpc/server/capnp code inside the bounds; oracle = RPC call model of DESIGN appendix A.4/D on the wire log and application event log. states = distinct scheduling configurations summed over scenarios; transitions = scheduling steps; traces = executions on the implementation.",
 		Assumptions: []string{
 			"timers never fire inside the horizon; transport is fault-free here (faults are C09)",
 			"scheduling points at every sync operation are sufficient (data-race freedom checked separately)",
@@ -894,11 +933,13 @@ func main() {
 					peerFamily("peer-calls<=3,dev2", scripts(3, modes4), vsched.Config{MaxPreempt: 2, MaxFree: 2, MaxTotal: 2, MaxSteps: 30000, MaxExecs: 100000}),
 					connFamily("conn-calls<=4,dev1", cprogs(4), vsched.Config{MaxPreempt: 1, MaxFree: 1, MaxTotal: 1, MaxSteps: 30000}),
 					connFamily("conn-calls<=3,dev2", cprogs(3), vsched.Config{MaxPreempt: 2, MaxFree: 2, MaxTotal: 2, MaxSteps: 30000, MaxExecs: 100000}),
+					embargoFamily("embargo,dev2", vsched.Config{MaxPreempt: 2, MaxFree: 2, MaxTotal: 2, MaxSteps: 30000, MaxExecs: 300000}),
 				}
 			}
 			return []vlib.Family{
 				peerFamily("peer-calls<=3,dev1", scripts(3, modes3), vsched.Config{MaxPreempt: 1, MaxFree: 1, MaxTotal: 1, MaxSteps: 30000}),
 				connFamily("conn-calls<=3,dev1", cprogs(3), vsched.Config{MaxPreempt: 1, MaxFree: 1, MaxTotal: 1, MaxSteps: 30000}),
+				embargoFamily("embargo,dev1", vsched.Config{MaxPreempt: 1, MaxFree: 1, MaxTotal: 1, MaxSteps: 30000}),
 			}
 		},
 	})
